@@ -9,7 +9,7 @@ import numpy
 import z3
 from vf import core, smt, symnp
 from vf.symnp import SymArr, Sc, Dim, SymNumpy
-from contracts.nonshear_env import patched
+from contracts.nonshear_env import patched, duck_of
 from contracts.np_proxy import NumpyProxy
 from contracts import calc_env
 
@@ -79,7 +79,7 @@ def run(s):
     def fit_ob():
         log = []
         EPS, eul, npstub = fit_stubs(log)
-        me = types.SimpleNamespace(volumes=Vtab, v_array=Vgrid)
+        me = duck_of(F, volumes=Vtab, v_array=Vgrid)
         with patched(fm, numpy=npstub, calculate_eulerian_strain=eul):
             res = F.fit_modulus(me, M)
         fits = [x[1] for x in log if x[0] == "polyfit"]
@@ -114,7 +114,7 @@ def run(s):
         nvt = 4
         vols = [types.SimpleNamespace(volume=900.0 - 50 * v, static_elastic_modulus={k: 100.0 * (n + 1) + v for n, k in enumerate(keys)}) for v in range(nvt)]
         seen = []
-        me = types.SimpleNamespace(elast_data=types.SimpleNamespace(volumes=vols), fit_modulus=lambda m: (seen.append(numpy.array(m)), "FIT%d" % len(seen))[1])
+        me = duck_of(F, elast_data=types.SimpleNamespace(volumes=vols), fit_modulus=lambda m: (seen.append(numpy.array(m)), "FIT%d" % len(seen))[1])
         gpa = 1e9 / (2.1798723611030e-18 / 5.29177210903e-11 ** 3)            # 1 GPa in Ry/bohr^3 from exact-SI/CODATA values
         for n, k in enumerate(keys):
             out = F.get_static_modulus(me, k)
@@ -132,7 +132,7 @@ def run(s):
             ST = {k: SymArr.atom("ST%d%d" % k.voigt, (ntv,)) for k in use}
             shared = SymArr.atom("PH_shared_%s" % which, (nt, ntv))            # two keys sharing one task result share one array object
             PH = {k: (shared if k in (c_(1, 1), c_(2, 2)) else SymArr.atom("PH%s%d%d" % ((which[0],) + k.voigt), (nt, ntv))) for k in use}
-            me = types.SimpleNamespace(modulus_keys=list(use), get_static_modulus=lambda k: ST[k])
+            me = duck_of(F, modulus_keys=list(use), get_static_modulus=lambda k: ST[k])
             setattr(me, attr, PH)
             prop = getattr(F, "modulus_" + which)
             body = prop.method if hasattr(prop, "method") else prop.fget
@@ -153,7 +153,7 @@ def run(s):
 
     # ---------------- 4. axial strains
     def strains_none():
-        me = types.SimpleNamespace(v_array=Vgrid, elast_data=types.SimpleNamespace(lattice_parmeters=[]))
+        me = duck_of(F, v_array=Vgrid, elast_data=types.SimpleNamespace(lattice_parmeters=[]))
         with patched(fm, numpy=SymNumpy()):
             r = F.get_axial_strains(me)
         return symnp.prove_arrays_equal(r, SymArr((ntv, 3), lambda idx: z3.RealVal(1)), [], tier=tier, name="axial strains without lattice block")
@@ -168,7 +168,7 @@ def run(s):
                 calls.append(numpy.array(col))
                 return numpy.array(atoms[len(calls) - 1], dtype=object)
             lat = [(10.0 + r, 20.0 + r, 30.0 + r) for r in range(4)]
-            me = types.SimpleNamespace(v_array=numpy.zeros(n), elast_data=types.SimpleNamespace(lattice_parmeters=lat), fit_modulus=fit)
+            me = duck_of(F, v_array=numpy.zeros(n), elast_data=types.SimpleNamespace(lattice_parmeters=lat), fit_modulus=fit)
             with patched(fm, numpy=NumpyProxy(symbolic_zeros=True)):
                 res = F.get_axial_strains(me)
             if len(calls) != 3 or any(not numpy.array_equal(calls[i], numpy.array([row[i] for row in lat])) for i in range(3)):
@@ -200,7 +200,7 @@ def run(s):
             calls.append((a, kw))
             return R0, R1, R2
         qi, va = object(), object()
-        me = types.SimpleNamespace(qha_input=qi, qha_calculator=types.SimpleNamespace(v_array=va),
+        me = duck_of(cal.Calculator, qha_input=qi, qha_calculator=types.SimpleNamespace(v_array=va),
                                    config={"elast": {"settings": {"mode_gamma": {"interpolator": "krogh", "order": 4}}}})
         with patched(cal, interpolate_modes=stub):
             cal.Calculator._interpolate_modes(me)
@@ -231,7 +231,7 @@ def run(s):
             return numpy.array(xnew) ** 2
         vols = [types.SimpleNamespace(volume=900.0 - 50 * i, energy=-10.0 - i) for i in range(nv_in)]
         grid = numpy.array([1000.0, 950.0, 900.0, 820.0, 700.0])
-        me = types.SimpleNamespace(qha_input=types.SimpleNamespace(volumes=vols), v_array=grid)
+        me = duck_of(cal.Calculator, qha_input=types.SimpleNamespace(volumes=vols), v_array=grid)
         with patched(cal, calculate_eulerian_strain=eul, polynomial_least_square_fitting=lsq):
             cal.Calculator._calculate_pressure_static(me)
         lsqs = [x for x in log if x[0] == "lsq"]
@@ -273,7 +273,7 @@ def native_fit(fm):
     Vt = numpy.linspace(900, 500, 8)
     m = 0.02 + 1e-5 * (900 - Vt) + 1e-8 * (900 - Vt) ** 2
     grid = numpy.linspace(1000, 450, 30)
-    me = types.SimpleNamespace(volumes=Vt, v_array=grid)
+    me = duck_of(fm.FullThermalElasticModulus, volumes=Vt, v_array=grid)
     got = fm.FullThermalElasticModulus.fit_modulus(me, m)
     want = numpy.polyval(numpy.polyfit(calculate_eulerian_strain(Vt[0], Vt), Vt * m, 3), calculate_eulerian_strain(Vt[0], grid)) / grid
     return {"reproduced": bool(not numpy.allclose(got, want, rtol=1e-9)), "max_rel_dev": float(numpy.abs(got / want - 1).max())}
@@ -286,7 +286,7 @@ def native_total(fm, which):
     shared = numpy.array([[10.0, 20.0], [30.0, 40.0]])
     ph = {keys[0]: shared, keys[1]: shared, keys[2]: numpy.array([[5.0, 6.0], [7.0, 8.0]])}
     ph0 = {k: v.copy() for k, v in ph.items()}
-    me = types.SimpleNamespace(modulus_keys=keys, get_static_modulus=lambda k: st[k])
+    me = duck_of(fm.FullThermalElasticModulus, modulus_keys=keys, get_static_modulus=lambda k: st[k])
     setattr(me, "_%s_phonon_contribution" % which, ph)
     prop = getattr(fm.FullThermalElasticModulus, "modulus_" + which)
     res = (prop.method if hasattr(prop, "method") else prop.fget)(me)
@@ -317,7 +317,7 @@ def symmetry_ob(cal):
     for system, expect in (("cubic", True), ("triclinic", False), (None, False), ("monoclinic", True)):
         sym = {"ignore_rank": True} if system is None else {"system": system, "ignore_rank": True}
         ed = object()
-        me = types.SimpleNamespace(config={"elast": {"settings": {"symmetry": sym}}}, elast_data=ed)
+        me = duck_of(cal.Calculator, config={"elast": {"settings": {"symmetry": sym}}}, elast_data=ed)
         del calls[:]
         with patched(cal, apply_symetry_on_elast_data=lambda a, b: calls.append((a, b))):
             cal.Calculator._apply_elastic_constants_symmetry(me)
@@ -345,7 +345,7 @@ def scheduling_ob(fm):
         def get_isothermal_results(self):
             return "ISO"
     calc = object()
-    me = types.SimpleNamespace(calculator=calc, modulus_keys=["K"], get_axial_strains=lambda: "STRAINS", _get_init_strain=lambda: (1 / 3,) * 3)
+    me = duck_of(fm.FullThermalElasticModulus, calculator=calc, modulus_keys=["K"], get_axial_strains=lambda: "STRAINS", _get_init_strain=lambda: (1 / 3,) * 3)
     with patched(fm, PhononContributionTaskList=TL):
         fm.FullThermalElasticModulus.calculate_phonon_contribution(me)
     kinds = [x[0] for x in log]
